@@ -89,7 +89,7 @@ STRENGTHENED.update({
     "C18-n": "croo on long records (130..1000 steps, current run of 127..1000 members) stored in uint8 / int8 / int16 / int32 / int64 cubes, rotated / reversed stored order",
     "C20-m": "sub-check 'buffers': the caller's template / label arrays refilled in place between whitint calls (oracle: brand-new arrays of the same content); results handed out earlier re-compared",
     "C06-n": "family 'small_signal_far_offset' in the offset relation: 800 pgu pairs per quick run with a seasonal signal of 5..60 counts shifted by +-9000..9800 (a violating pair comes up about once in 270 such cases)",
-    "C13-n": "NOT yet caught: compiled float32 .sum() (sequential) vs NumPy's pairwise summation differ by 1e-4 .. 1e-2 only for windows of 1e4 .. 1e6 float32 cells; C13's large inputs are integer-valued (exact in both) - see DESIGN section 12, round 7"})
+    "C13-n": "C13 'large': rolling_sum on 60000 float32 cells (multiples of 0.1) with a window of n - 2, compared at 2 ulp - the unchanged source fixes the order of the float32 additions, in the interpreter and in compiled code alike"})
 FIRST = {k: "missed" for k in STRENGTHENED}  # result of the first evaluation, before the strengthening the seed prompted
 SUPERSEDED = {
     "C12-j": "superseded: confirmed and caught on hdc-algo 2da843a; it rewrote the dask key of zonal.mean, the line that the repair of D17 (0318712) now owns, so the patch no longer applies to the repaired tree; at its own base commit it is caught by C12's joint sub-check",
